@@ -22,8 +22,13 @@ def _tables():
     common.write_if_changed(os.path.join(common.COQ, "Gen", "Tables.v"), tr_tables.emit(t, "lib", "live tables of /repo"))
 
 
-TRANSLATORS = [("tr_scales", _scales), ("tr_tables", _tables)]
-GEN_FILES = ["Gen/Scales.v", "Gen/Tables.v"]
+def _spectables():
+    import tr_tables
+    common.write_if_changed(os.path.join(common.COQ, "Gen", "SpecTables.v"), tr_tables.emit_spec(common.VERIF))
+
+
+TRANSLATORS = [("tr_scales", _scales), ("tr_tables", _tables), ("tr_spectables", _spectables)]
+GEN_FILES = ["Gen/Scales.v", "Gen/Tables.v", "Gen/SpecTables.v"]
 TRANSLATORS.append(("tr_regex", _regex))
 GEN_FILES.append("Gen/Regexes.v")
 
@@ -46,6 +51,26 @@ def _heapworld():
 
 TRANSLATORS.append(("tr_heapworld", _heapworld))
 GEN_FILES.append("Gen/HeapWorld.v")
+
+
+def _c17classes():
+    import tr_c17classes
+    text, _ = tr_c17classes.translate(common.REPO, common.PY)
+    common.write_if_changed(os.path.join(common.COQ, "Gen", "C17Classes.v"), text)
+
+
+TRANSLATORS.append(("tr_c17classes", _c17classes))
+GEN_FILES.append("Gen/C17Classes.v")
+
+
+def _versioning():
+    import tr_versioning
+    text, _ = tr_versioning.translate(common.REPO, common.PY, common.VERIF)
+    common.write_if_changed(os.path.join(common.COQ, "Gen", "VersioningTables.v"), text)
+
+
+TRANSLATORS.append(("tr_versioning", _versioning))
+GEN_FILES.append("Gen/VersioningTables.v")
 
 
 def run_all():
